@@ -73,7 +73,26 @@ let okind = function
   | "cfb8_enc" -> Some (KBlock KCfb8E) | "cfb8_dec" -> Some (KBlock KCfb8D)
   | "ofb_enc" -> Some (KBlock KOfbE) | "ofb_dec" -> Some (KBlock KOfbD)
   | "buf_enc" -> Some (KBuf true) | "buf_dec" -> Some (KBuf false)
+  | "ctr32be" -> Some (KWrap (SCtr (nat_of_int 4, true))) | "ctr32le" -> Some (KWrap (SCtr (nat_of_int 4, false)))
+  | "ctr64be" -> Some (KWrap (SCtr (nat_of_int 8, true))) | "ctr64le" -> Some (KWrap (SCtr (nat_of_int 8, false)))
+  | "ctr128be" -> Some (KWrap (SCtr (nat_of_int 16, true))) | "ctr128le" -> Some (KWrap (SCtr (nat_of_int 16, false)))
+  | "ctr32be_core" -> Some (KCore (SCtr (nat_of_int 4, true))) | "ctr32le_core" -> Some (KCore (SCtr (nat_of_int 4, false)))
+  | "ctr64be_core" -> Some (KCore (SCtr (nat_of_int 8, true))) | "ctr64le_core" -> Some (KCore (SCtr (nat_of_int 8, false)))
+  | "ctr128be_core" -> Some (KCore (SCtr (nat_of_int 16, true))) | "ctr128le_core" -> Some (KCore (SCtr (nat_of_int 16, false)))
+  | "ofb" -> Some (KWrap SOfb) | "ofb_core" -> Some (KCore SOfb)
+  | "belt" -> Some (KWrap SBelt) | "belt_core" -> Some (KCore SBelt)
+  | "cbc_cs1" -> Some (KCts CbcCs1) | "cbc_cs2" -> Some (KCts CbcCs2) | "cbc_cs3" -> Some (KCts CbcCs3)
+  | "ecb_cs1" -> Some (KCts EcbCs1) | "ecb_cs2" -> Some (KCts EcbCs2) | "ecb_cs3" -> Some (KCts EcbCs3)
   | _ -> None
+
+let seeknum = function
+  | "i32" -> Some SN_i32 | "u32" -> Some SN_u32 | "u64" -> Some SN_u64 | "u128" -> Some SN_u128
+  | "usize" -> Some SN_usize | _ -> None
+
+let z_of_dec (s : string) : z =
+  if s.[0] = '-' then (match n_of_dec (String.sub s 1 (String.length s - 1)) with N0 -> Z0 | Npos p -> Zneg p)
+  else (match n_of_dec s with N0 -> Z0 | Npos p -> Zpos p)
+let dec_of_z = function Z0 -> "0" | Zpos p -> dec_of_n (Npos p) | Zneg p -> "-" ^ dec_of_n (Npos p)
 
 let how = function
   | "new" -> Some HNew | "inner" -> Some HInner | "slices" -> Some HSlices
@@ -102,6 +121,19 @@ let parse_op (toks : string list) : op =
   | ["ivstate"; i] -> OpIvState (id i)
   | ["buf"; i; d] -> OpBuf (id i, darg d)
   | ["getstate"; i] -> OpGetState (id i)
+  | "apply" :: i :: a -> place a >>= fun p -> OpApply (id i, p)
+  | ["seek"; i; t; p] -> seeknum t >>= fun t -> OpSeek (id i, t, z_of_dec p)
+  | ["pos"; i; t] -> seeknum t >>= fun t -> OpPos (id i, t)
+  | ["ksblocks"; i; n] -> OpKsBlocks (id i, nat_of_int (int_of_string n))
+  | "applyblks" :: i :: a -> place a >>= fun p -> OpApplyBlks (id i, p)
+  | "applyblk" :: i :: a -> place a >>= fun p -> OpApplyBlk (id i, p)
+  | ["remaining"; i] -> OpRemaining (id i)
+  | ["getpos"; i] -> OpGetPos (id i)
+  | ["setpos"; i; p] -> OpSetPos (id i, n_of_dec p)
+  | ["wrap"; i; j] -> let a = id i in let b = id j in OpWrap (a, b)
+  | ["core"; i; j] -> let a = id i in let b = id j in OpCore (a, b)
+  | "cts_enc" :: i :: a -> place a >>= fun p -> OpCts (id i, true, p)
+  | "cts_dec" :: i :: a -> place a >>= fun p -> OpCts (id i, false, p)
   | "cat" :: ds -> OpCat (List.map darg ds)
   | ["sub"; d; off; len] -> OpSub (darg d, nat_of_int (int_of_string off), nat_of_int (int_of_string len))
   | _ -> OpOther
@@ -111,7 +143,7 @@ let show = function
   | RErr -> "err"
   | RPanic -> "panic"
   | ROk -> "ok"
-  | RNum n -> "num " ^ dec_of_n n
+  | RNum n -> "num " ^ dec_of_z n
   | RNone -> "none"
   | RState (l, p) -> Printf.sprintf "state %s %d" (hex l) (int_of_nat p)
   | RUnsupported -> "unsupported"
